@@ -209,7 +209,7 @@ def build(thorough):
         scs.append(flapgone_scenario("flapgone-100-150", 100, 150, nflap=3))
     scs.append(dead_scenario("deadchurn-300-0", 300, 0, churn=True))
     scs.append(dead_scenario("deadchurn-100-400", 100, 400, churn=True))
-    for (tr, ivl, mx, down) in ([("tcp", 50, 200, 700), ("tcp", 100, 0, 400), ("ipc", 50, 200, 700)] if thorough else [("tcp", 50, 200, 700)]):
+    for (tr, ivl, mx, down) in ([("tcp", 50, 200, 700), ("tcp", 100, 0, 400), ("ipc", 50, 200, 700), ("ipc", 100, 0, 400)] if thorough else [("tcp", 50, 200, 700), ("ipc", 50, 200, 700)]):
         scs.append(comeback_scenario("comeback-%s-%d-%d" % (tr, ivl, mx), tr, ivl, mx, down))
     return scs
 
@@ -294,6 +294,11 @@ def to_events(sc, meta, r):
             # ComesBack in time: the first message arrives within one (capped) delay of the listener's return
             cap = meta["max"] if meta["max"] > 0 else max(meta["ivl"] * 2 ** 5, 1000)
             ev.append({"e": "attempt", "conn": "back", "gap": firstback["t"] - marks["back"], "ivl": 0, "max": cap, "first": False, "k": 0, "resume": True})
+        elif "back" in marks:
+            # nothing at all arrived after the listener was back: ComesBack fails outright
+            cap = meta["max"] if meta["max"] > 0 else max(meta["ivl"] * 2 ** 5, 1000)
+            last_t = max([x.get("t", 0) for x in recs if isinstance(x.get("t"), int)] + [marks["back"]])
+            ev.append({"e": "attempt", "conn": "back", "gap": max(last_t - marks["back"], cap + 451), "ivl": 0, "max": cap, "first": False, "k": 0, "resume": True, "never": True})
     for tag, conn in (("good", "good"), ("late", "late"), ("back", "back")):
         if conn in conn_names and tag in sent:
             ev.append({"e": "sent", "conn": conn, "n": sent[tag]})
@@ -309,6 +314,8 @@ def describe(ev, at, meta):
         return "healthy-connection-disturbed", "connection %s: message %s arrived out of sequence" % (x["conn"], x["k"])
     if x["e"] == "attempt":
         if x.get("resume"):
+            if x.get("never"):
+                return "no-comeback", "traffic never resumed although the listener had been back for %d ms (bound %d ms)" % (x["gap"], x["max"] + 450)
             return "no-comeback", "traffic resumed %d ms after the listener was back (bound %d ms)" % (x["gap"], x["max"] + 450)
         what = "RECONNECT_IVL=%d RECONNECT_IVL_MAX=%d attempt %s: %s %d ms" % (x["ivl"], x["max"], x.get("k"), "nominal interval" if x.get("nominal") else "measured gap", x["gap"])
         fl = min(x["ivl"], x["max"]) if x["max"] > 0 else x["ivl"]
